@@ -32,7 +32,7 @@ CHECKS = {
              "(spec/Trace_Doc.tla) and the serde_json images of one document equal across subsets (spec/Trace_Subsets.tla). "
              "Conversely documents using exactly one extension's syntax (alias, range, unit without %, bracketed key, inline "
              "quantity, timer without duration, intermediate reference) are parsed under every subset lacking it and must "
-             "equal the core reading the specification predicts with that extension off.",
+             "equal the core reading the specification predicts with that extension off; hand-written families add names with one, two, leading and trailing pipes, bracketed keys (known, unknown, with bad values), ranges with units and modifier characters.",
         design="6 (C02)", technique="TLA+ generator with Syntax/Ext split + TLC simulation + replay under all extension subsets + trace validation",
         note=DOC_NOTE),
     "C03": dict(
@@ -43,7 +43,7 @@ CHECKS = {
              "repository's recipes, random splices, fence/front-matter, repetition and boundary-metadata families, under "
              "{none, all, compat} x {empty, bundled}. TLC judges each recorded call sequence against the protocol "
              "(spec/Trace_Api.tla): every call must be enabled and must RETURN (a panic, failed assertion, overflow or "
-             "watchdog timeout has no transition), and each raw event stream must obey the event grammar. The inputs of the parser kernels (spec/MC_Parser.tla: components, quantities, modifiers, blocks, escapes, path-like names) run too: the pull parser and build_ast under the kernels' extension sets (judged by spec/Trace_Parser.tla) and the API programs under six extension subsets that switch single gates.",
+             "watchdog timeout has no transition), and each raw event stream must obey the event grammar. The inputs of the parser kernels (spec/MC_Parser.tla: components, quantities, modifiers, blocks, escapes, path-like names) run too: the pull parser and build_ast under the kernels' extension sets (judged by spec/Trace_Parser.tla) and the API programs under six extension subsets that switch single gates. Every program also runs on amounts at the edges of f64 / u32 in every unit of an extreme converter (ratios 1e300 and 1e-300, fractions everywhere with the widest limits, offsets), on CookDoc's generated documents and on small documents carrying a byte-order mark, zero-width / directional marks, NEL, LS, VT, FF or NUL.",
         design="6 (C03), 3.11", technique="TLA+ API typestate model + TLC-generated call programs replayed on exhaustive corpora + trace validation",
         note="Trusted: TLC, catch_unwind sees every panic (debug assertions and overflow checks on), 10 s watchdog = hang. "
              "Exhaustive only up to the stated string length."),
@@ -94,7 +94,7 @@ CHECKS = {
              "real-world definitions (StdDefs): every ordered pair of units x 7 values must agree with them (1e-6) and "
              "there-and-back / via-every-third-unit must agree with the direct conversion (1e-9). Valid CookDoc recipes go "
              "through ScaledRecipe::convert to both systems: amounts preserved, units from the designated list, failures "
-             "unchanged and all reported. Quantity::fit is swept over 409 values x every bundled unit (FitPreservesAmount, measured with StdDefs), and ScaledRecipe::convert runs on a range x unit grid with references that carry their own quantity.",
+             "unchanged and all reported. Quantity::fit is swept over 409 values x every bundled unit (FitPreservesAmount, measured with StdDefs), and ScaledRecipe::convert runs on a range x unit grid with references that carry their own quantity. To a system / fit, the specification prints the exact amount in every unit of the designated list: the clause is a unit of the list with the amount specified for it (the threshold choice and the error variant of a failing conversion are drift). Every bundled pair is also converted through a quantity (fractions), with amounts beyond u32, and every converter CookBuilder predicts from the layer pool of MC_Builder converts each pair of its units by the predicted ratios (LayeredAmountAsDefined).",
         design="6 (C09), 3.6", technique="TLA+ exact-rational conversion model + TLC enumeration + replay + trace validation; standard definitions as spec constants",
         note="Trusted: TLC; the IEEE evaluation and the tolerances are the harness' (TLC has no reals); StdDefs are the SI / US "
              "customary definitions. A typo below the precision of units.toml itself (~1e-7) cannot be seen."),
@@ -108,7 +108,7 @@ CHECKS = {
              "categorize with an aisle file whose synonyms collide with listed names; TLC recomputes the expected totals "
              "from the recipe's quantities with the same operators (spec/Trace_List.tla): grouped = definitions in recipe "
              "order, each quantity once under the definition CookAnalysis resolves it to, hidden/reference-only not listed, "
-             "lists and categories conserve.",
+             "lists and categories conserve. Every bundled unit x 135 numbers / ranges is added in two halves and fitted with the bundled converter (fractions on), measured with the specification's standard definitions (BundledTotalsConserved).",
         design="6 (C10), 3.7", technique="TLA+ bucket model with exact arithmetic + TLC exhaustive add/merge sequences + trace validation of totals",
         note="Trusted: TLC; exactness relies on the model converter's integer ratios (the recorder flags any total that is "
              "not within 1e-6 of a quarter unit). The bundled converter's non-integer ratios are exercised by C09, not here."),
@@ -117,7 +117,7 @@ CHECKS = {
              "string up to a bound and every file of pool lines, checking duplicate-freedom, span bounds, lookup and "
              "write/parse identity as invariants of the model; every finished behaviour (input + predicted outcome) is "
              "replayed into the real aisle::parse/write/ingredients_info and the recorded executions are judged by TLC "
-             "(spec/Trace_Aisle.tla) with the same predicates. Bounded-exhaustive over the format's alphabet, sampled beyond.",
+             "(spec/Trace_Aisle.tla) with the same predicates (which error a file with several problems reports, its spans and the writer's layout are drift). Bounded-exhaustive over the format's alphabet, sampled beyond.",
         design="6 (C11), 3.8", technique="TLA+ model (CookAisle) + TLC exhaustive generation + trace validation of recorded aisle::parse runs",
         note="Trusted: TLC, the JSON reader, the recorder's projection. Inputs beyond the bound are only sampled (seeded)."),
     "C12": dict(
@@ -140,7 +140,7 @@ CHECKS = {
              "and predicts severity, stage, class and the byte span of the construct; TLC judges that such a diagnostic "
              "exists and that its first label touches the span. Validity <=> output and no error, parse errors suppress "
              "output and analysis diagnostics, analysis errors keep the output: invariants of CookAnalysis and clauses "
-             "judged on every record. The parser itself is also specified as a parser (spec/CookParser.tla, a transcription of src/parser over the tokens of CookLexer; TLC enumerates every string up to a bound over ten kernel alphabets x extension sets, checks the design invariants and prints the predicted events; for whole documents TLC lexes and parses the recorded text itself) and TLC judges the real PullParser events against it (spec/Trace_Parser.tla): clauses SilentWhenSpecifiedSilent and DiagnosedAsSpecified (severity, class, label touching the specified one) for every input of the kernels, not only the cataloged defects.",
+             "judged on every record. The parser itself is also specified as a parser (spec/CookParser.tla, a transcription of src/parser over the tokens of CookLexer; TLC enumerates every string up to a bound over ten kernel alphabets x extension sets, checks the design invariants and prints the predicted events; for whole documents TLC lexes and parses the recorded text itself) and TLC judges the real PullParser events against it (spec/Trace_Parser.tla): clauses SilentWhenSpecifiedSilent and DiagnosedAsSpecified (kind and a label touching the specified one) for every input of the kernels, not only the cataloged defects. Diagnostics are compared by severity, stage and labels; their classes (read off the message text) only as drift, and after an injected invalid construct only that construct's diagnostic and the validity rules are demanded - rewording, extra hints and other recovery are not alarms (18 stored benign changes, ./check selftest --part benign).",
         design="6 (C07)", technique="TLA+ defect-injecting generator + TLC exhaustive kernel/simulation + trace validation of diagnostics",
         note=DOC_NOTE + " Replay of the defect kernel is stratified per defect class at the quick tier."),
     "C13": dict(
@@ -151,7 +151,7 @@ CHECKS = {
              "exhaustively; each is written through `>>` and through a YAML front matter, parsed with the bundled, the empty "
              "and a renamed-units converter, and TLC judges the recorded warning flag and accessor results "
              "(spec/Trace_StdMeta.tla): reading as documented, out-of-form => warning and nothing, warning <=> nothing, "
-             "typed Metadata accessors agree, servings stored for scaling. A fourth converter whose minutes cannot be found under an English key while `m` is the metre, and documents with an out-of-form `time` next to valid prep / cook times, are part of the corpus. spec/CookStdValue.tla transcribes the readers character by character (parse_time, locale, servings and tags strings); MC_StdValue enumerates every string over small alphabets up to 4 (thorough 5) characters with its specified reading.",
+             "typed Metadata accessors agree, servings stored for scaling. A fourth converter whose minutes cannot be found under an English key while `m` is the metre, and documents with an out-of-form `time` next to valid prep / cook times, are part of the corpus. spec/CookStdValue.tla transcribes the readers character by character (parse_time, locale, servings and tags strings); MC_StdValue enumerates every string over small alphabets up to 4 (thorough 5) characters with its specified reading. The parse-time warning is recognised without its wording: a warning that the same document written with a documented value does not have.",
         design="6 (C13), 3.10", technique="TLA+ generator of documented metadata shapes with exact predictions + TLC enumeration + trace validation of accessors",
         note="Trusted: TLC; numbers travel as decimal strings; the renamed converter keeps `min` reachable (the reader looks "
              "minutes up under English keys - a converter renaming that too cannot read durations, recorded as an observation)."),
@@ -197,7 +197,7 @@ CHECKS = {
              "parse / parse_metadata / parse_with_options(validator) / parse+scale+convert+group), with the baseline of "
              "every (operation, input) from a fresh parser; TLC validates each history against the model's notion of an "
              "explainable history (spec/Trace_Shared.tla): per-thread Begin/End alternation and every End carrying the "
-             "sequential baseline. Every baseline comes from a pristine process (one per operation x input x configuration), so that process-wide state of an earlier call cannot be in the baseline either. Every other run adds 40 cold-start rounds: a brand-new parser, all threads released together on the same prose.",
+             "sequential baseline. Every baseline comes from a pristine process (one per operation x input x configuration), so that process-wide state of an earlier call cannot be in the baseline either. Every other run adds 40 cold-start rounds: a brand-new parser, all threads released together on one of three inputs (prose with unit names, durations with unit names, durations that are no whole minutes). A fifth operation reads the standard metadata accessors of a parsed recipe between parses.",
         design="6 (C18), 3.11", technique="TLA+ concurrency model checked exhaustively + trace validation of recorded multi-thread and sequential histories",
         note="Trusted: TLC; a 64-bit hash of JSON image + ordered diagnostics stands for the result. Real thread schedules are "
              "those the OS produces (their number is reported), not an exhaustive set."),
